@@ -716,6 +716,15 @@ func (e *Env) call(x *SExpr) Val {
 		h := vc.byteHeap(e.st)
 		vc.sc.declareFun("crc32", []string{arraySort(sortIdx, bvSort(8)), sortIdx, sortIdx}, bvSort(32))
 		return Val{K: KScalar, T: types.Typ[types.Uint32], S: sx("crc32", sel(h, a.Sl[0]), a.Sl[1], a.Sl[2])}
+	case "tolower":
+		a := argv(0)
+		if a.K != KScalar {
+			return e.fail("tolower of non-string")
+		}
+		vc.declStr()
+		fn := quote("strings.ToLower")
+		vc.sc.declareFun(fn, []string{sortStr}, sortStr)
+		return Val{K: KScalar, T: types.Typ[types.String], S: sx(fn, a.S)}
 	case "sext64":
 		a := argv(0)
 		return intVal(toIdx(a))
